@@ -452,7 +452,7 @@ class Controller:
     @public_address.setter
     def public_address(self, address: hci.Address | str) -> None:
         if isinstance(address, str):
-            address = hci.Address(address)
+            address = hci.Address(address, hci.Address.PUBLIC_DEVICE_ADDRESS)
         self._public_address = address
 
     @property
